@@ -621,6 +621,10 @@ def container_method(pack, interp, recv, name, args, kwargs, node):
         h = pack.models.get("%s.%s" % (k.name, name))
         if h:
             return h(interp, recv, args, kwargs)
+    if isinstance(recv, Sym) and isinstance(recv.kind, Atom):
+        h = pack.models.get("%s.%s" % (recv.kind.name, name))
+        if h:
+            return h(interp, recv, args, kwargs)
     if isinstance(recv, (tuple, frozenset)) and name in ("count", "index"):
         raise Unsupported("tuple.%s" % name)
     raise Unsupported("method %s of %r" % (name, recv))
